@@ -1,7 +1,7 @@
 // Package planfed is the second CONFIGURATION of the C09 check (harness/cmd/planx): a small hand-written
 // supergraph with the planning situations the shipped federationtesting supergraph does not contain.
 //
-//	catalog    Query.items / a / b / me;  interface Item {id owner: User} = Book | Film;  stubs User, A, B @key(id)
+//	catalog    Query.items / a / b / me / echo(filter: Filter, n: Int) (echoes the arguments it RECEIVED: input objects);  interface Item {id owner: User} = Book | Film;  stubs User, A, B @key(id)
 //	users      User @key(id)  {id name}
 //	bridge-one User @key(id) @key(uuid) {id uuid}      two EQUALLY SHORT key chains lead from catalog (User.id)
 //	bridge-two User @key(id) @key(uuid) {id uuid}      to titles (User.uuid): catalog -> bridge-one | bridge-two -> titles
@@ -28,6 +28,7 @@ import (
 	"fmt"
 	"io"
 	"net/http"
+	"regexp"
 	"sort"
 	"strings"
 
@@ -38,7 +39,9 @@ import (
 )
 
 const SupergraphSDL = `schema { query: Query }
-type Query { items: [Item!]! a: A b: B me: User }
+type Query { items: [Item!]! a: A b: B me: User echo(filter: Filter, n: Int): String }
+input Filter { kind: String min: Int owner: OwnerIn tags: [String] }
+input OwnerIn { id: ID }
 interface Item { id: ID! owner: User }
 type Book implements Item { id: ID! owner: User pages: Int }
 type Film implements Item { id: ID! owner: User minutes: Int }
@@ -47,7 +50,9 @@ type A { id: ID! w: String x: String }
 type B { id: ID! z: String y: String }
 `
 
-const catalogSDL = `type Query { items: [Item!]! a: A b: B me: User }
+const catalogSDL = `type Query { items: [Item!]! a: A b: B me: User echo(filter: Filter, n: Int): String }
+input Filter { kind: String min: Int owner: OwnerIn tags: [String] }
+input OwnerIn { id: ID }
 interface Item { id: ID! owner: User }
 type Book implements Item { id: ID! owner: User pages: Int }
 type Film implements Item { id: ID! owner: User minutes: Int }
@@ -89,7 +94,7 @@ func subgraphs() []sg {
 	return []sg{
 		{"catalog", catalogSDL, &plan.DataSourceMetadata{
 			RootNodes: []plan.TypeField{
-				{TypeName: "Query", FieldNames: []string{"items", "a", "b", "me"}},
+				{TypeName: "Query", FieldNames: []string{"items", "a", "b", "me", "echo"}},
 				{TypeName: "User", FieldNames: []string{"id"}},
 				{TypeName: "A", FieldNames: []string{"id"}},
 				{TypeName: "B", FieldNames: []string{"id"}},
@@ -159,6 +164,12 @@ func Options() fedenv.Options {
 	return fedenv.Options{
 		RouterConfigJSON: rc,
 		Handlers:         handlers,
+		ConfigurePlanner: func(c *plan.Configuration) {
+			c.Fields = append(c.Fields, plan.FieldConfiguration{TypeName: "Query", FieldName: "echo", Arguments: plan.ArgumentsConfigurations{
+				{Name: "filter", SourceType: plan.FieldArgumentSource},
+				{Name: "n", SourceType: plan.FieldArgumentSource},
+			}})
+		},
 		DataSources: func(ctx context.Context, client *http.Client) ([]plan.DataSource, error) {
 			var out []plan.DataSource
 			for _, s := range subgraphs() {
@@ -250,6 +261,38 @@ func entity(name string, rep obj) any {
 	return nil
 }
 
+var (
+	echoCallRe = regexp.MustCompile(`echo\s*\(([^)]*)\)`)
+	echoArgRe  = regexp.MustCompile(`([_A-Za-z][_0-9A-Za-z]*)\s*:\s*(\$[_A-Za-z][_0-9A-Za-z]*|[^,\s]+)`)
+)
+
+// echo renders the arguments the catalog subgraph RECEIVED for Query.echo (input-object / scalar arguments arrive as
+// variables): "filter=<canonical JSON>;n=<JSON>", so a wrongly mapped, lost or mistyped variable is visible to the client.
+func echo(query string, vars map[string]json.RawMessage) (string, bool) {
+	m := echoCallRe.FindStringSubmatch(query)
+	if m == nil {
+		return "", false
+	}
+	var parts []string
+	for _, a := range echoArgRe.FindAllStringSubmatch(m[1], -1) {
+		val := a[2]
+		if strings.HasPrefix(val, "$") {
+			raw, ok := vars[val[1:]]
+			if !ok {
+				val = "<undefined>"
+			} else {
+				var v any
+				_ = json.Unmarshal(raw, &v)
+				b, _ := json.Marshal(v) // object keys sorted
+				val = string(b)
+			}
+		}
+		parts = append(parts, a[1]+"="+val)
+	}
+	sort.Strings(parts)
+	return strings.Join(parts, ";"), true
+}
+
 func handler(name string) http.Handler {
 	return http.HandlerFunc(func(w http.ResponseWriter, r *http.Request) {
 		body, _ := io.ReadAll(r.Body)
@@ -288,6 +331,9 @@ func handler(name string) http.Handler {
 			}
 		} else if name == "catalog" {
 			data = rootData()
+			if e, ok := echo(req.Query, req.Variables); ok {
+				data["echo"] = e
+			}
 		}
 		_ = json.NewEncoder(w).Encode(obj{"data": data})
 	})
